@@ -222,11 +222,11 @@ struct ResetPlan
   }
 };
 
-static std::string ops_json(const std::vector<Op> & ops, size_t upto)
+static std::string ops_json(const std::vector<Op> & ops, size_t upto, size_t from = 0)
 {
   std::string o = "[";
-  for (size_t i = 0; i <= upto && i < ops.size(); ++i) {
-    if (i) {o += ",";}
+  for (size_t i = from; i <= upto && i < ops.size(); ++i) {
+    if (i > from) {o += ",";}
     o += ops[i].reset ? std::string("\"reset\"") : vh::jnum(ops[i].x);
   }
   return o + "]";
@@ -235,107 +235,255 @@ static std::string ops_json(const std::vector<Op> & ops, size_t upto)
 struct HistoryFacts {bool wrapped = false; bool reset_then_update = false; bool reset_mid_window = false;
   int resets = 0; int updates = 0;
   // ring only: appends whose argument aliases the ring's own state
-  int alias_appends = 0; bool alias_perm_of_evicted = false;};
+  int alias_appends = 0; bool alias_perm_of_evicted = false;
+  int reconfigured = 0; int copies = 0; int self_set = 0; int sibling_bursts = 0; int own_getter_appends = 0; int rvalue_appends = 0;
+  int ref_checks = 0; bool extreme_items = false;};
 
 // ---------------------------------------------------------------------------------------------
 // statistics: drive one object through one history, checking after every operation.
 // returns false after the first violation (the rest of the history is then not informative).
 // ---------------------------------------------------------------------------------------------
-struct StatCfg {bool variance; int W; Prec prec; bool via_set_window; const char * cat;};
+struct StatCfg {bool variance; int W; Prec prec; bool via_set_window; const char * cat; size_t observe_from = 0;
+  bool allow_reconfigure = true;};
 
-static bool run_stats(vh::Ctx & c, const StatCfg & s, const std::vector<Op> & ops, HistoryFacts & hf)
+static uint64_t dbits(double d) {uint64_t u; std::memcpy(&u, &d, 8); return u;}
+
+// What one object shows at the public API (bit patterns, so that NaN == NaN).
+struct Shown {bool avail; uint64_t avg; uint64_t var; size_t wsize;
+  bool operator==(const Shown & o) const {return avail == o.avail && avg == o.avg && var == o.var && wsize == o.wsize;}};
+static Shown show(const OnlineAverage & o, const OnlineVariance * v)
 {
-  std::unique_ptr<OnlineAverage> obj;
-  OnlineVariance * var = nullptr;
-  if (s.variance) {
-    var = s.via_set_window ? new OnlineVariance(s.prec.p) : new OnlineVariance(s.prec.p, (size_t)s.W);
-    obj.reset(var);
-  } else {
-    obj.reset(s.via_set_window ? new OnlineAverage(s.prec.p) : new OnlineAverage(s.prec.p, (size_t)s.W));
+  return Shown{o.isAvailable(), dbits(o.getAverage()), v ? dbits(v->getVariance()) : 0, o.getWindowSize()};
+}
+
+// a throw-away object of either class, fed a few samples (used as sibling, as discarded copy, as clobbered source)
+// (values stay inside the stated domain |x|/precision <= 1e8 of that object: amp = 1e7 * precision)
+static void abuse(OnlineAverage & o, vh::Rng & rs, int nops, double amp)
+{
+  for (int t = 0; t < nops; ++t) {
+    if (rs.coin(0.2)) {o.reset();} else {o.update(rs.uni(-amp, amp));}
   }
+}
+
+// Besides the plain history the run exercises, from its own random stream `rs` (wave-3 lessons):
+//   value categories   update() called with the stored lvalue, a prvalue, an xvalue, a local that is clobbered afterwards
+//   argument aliasing  setWindowSize(getWindowSize()) in the middle of the history (reference to the object's own member)
+//   value semantics    copy-construction (also from an rvalue: the class has no move constructor, the copy constructor
+//                      is selected) in the middle of the history; either the copy replaces the original (the original is
+//                      then fed other data, reset and destroyed) or the copy is fed other data and destroyed; the object
+//                      that continues must keep matching the reference model
+//   interference       a sibling object of the same family, with another window and precision, is driven between
+//                      mutation and observation; a temporary third object is created and destroyed
+//   re-configuration   setWindowSize(W') with another W' while the window is empty (before the first sample, right
+//                      after a reset, or immediately before a reset): from then on the object must behave as one of
+//                      window W'.  Re-configuration while samples are in the window is NOT generated: the statement
+//                      does not say which samples the new window should then hold.
+//   result stability   the reference returned by getWindowSize() is bound once and re-read; at the end everything shown
+//                      is read, siblings are driven, and it is read again: must be bit-identical
+static bool run_stats(vh::Ctx & c, vh::Rng & rs, const StatCfg & s, const std::vector<Op> & ops, HistoryFacts & hf)
+{
+  auto make = [&s]() -> OnlineAverage * {
+      if (s.variance) {
+        return s.via_set_window ? new OnlineVariance(s.prec.p) : new OnlineVariance(double(s.prec.p), (size_t)s.W);
+      }
+      return s.via_set_window ? new OnlineAverage(double(s.prec.p)) : new OnlineAverage(s.prec.p, (size_t)s.W);
+    };
+  std::unique_ptr<OnlineAverage> obj(make());
+  OnlineVariance * var = s.variance ? static_cast<OnlineVariance *>(obj.get()) : nullptr;
   if (s.via_set_window) {obj->setWindowSize((size_t)s.W);}
+  const size_t * wref = &obj->getWindowSize();      // reference returned by the getter, kept
+
+  // sibling of the other class, other window, other precision
+  std::unique_ptr<OnlineAverage> sib;
+  double sib_amp;
+  const double own_amp = 1e7 / (double)s.prec.m;
+  {
+    Prec sp = PRECS[rs.range(0, N_PREC - 1)];
+    sib_amp = 1e7 / (double)sp.m;
+    size_t sw = (size_t)rs.range(2, 9);
+    if (s.variance) {sib.reset(new OnlineAverage(sp.p, sw));} else {sib.reset(new OnlineVariance(sp.p, sw));}
+  }
+  const bool extras = !ops.empty();
+  const size_t copy_at = (extras && rs.coin(0.3)) ? (size_t)rs.range((int64_t)s.observe_from, (int64_t)ops.size() - 1) :
+    (size_t)-1;
 
   std::vector<long long> hist;     // truncated samples since the last reset (reference state)
   const long long m = s.prec.m;
-  const int W = s.W;
+  int W = s.W;                     // current window size (changes with a re-configuration)
   bool had_reset_after_data = false;
+  auto new_window = [&]() {
+      int lo = s.variance ? 2 : 1;
+      int nw = rs.coin(0.5) ? (int)rs.range(lo, 8) : (int)rs.range(lo, 64);
+      if (nw != W) {++hf.reconfigured;}
+      return nw;
+    };
+
+  struct Frame
+  {
+    const StatCfg & s; const std::vector<Op> & ops; const HistoryFacts & hf; size_t i; long long n;
+    bool avail; double got; LD expected; LD sumsq; const char * note; int W;
+    vh::Params params() const
+    {
+      return vh::Params{{"W", (double)W}, {"W_initial", (double)s.W}, {"precision", s.prec.p}, {"multiplier", (double)s.prec.m},
+        {"variance_object", s.variance ? 1.0 : 0.0}, {"n_since_reset", (double)n},
+        {"resets", (double)hf.resets}, {"n_over_W", (double)(n - W)}, {"reconfigured", (double)hf.reconfigured},
+        {"via_setWindowSize", s.via_set_window ? 1.0 : 0.0}, {"op_index", (double)i},
+        {"copies", (double)hf.copies}, {"self_setWindowSize", (double)hf.self_set}};
+    }
+    std::string wit() const
+    {
+      size_t from = i > 700 ? i - 700 : 0;       // long histories: the tail is what matters
+      return vh::J().s("cat", s.cat).s("class", s.variance ? "OnlineVariance" : "OnlineAverage")
+             .f("W_initial", s.W).f("W_now", W).f("window_changes_before", hf.reconfigured)
+             .f("precision", s.prec.p).f("multiplier", (int64_t)s.prec.m)
+             .boolean("via_setWindowSize", s.via_set_window).f("failing_op", (uint64_t)i)
+             .f("copies_before", hf.copies).f("self_setWindowSize_before", hf.self_set).s("note", note)
+             .f("ops_shown_from", (uint64_t)from).raw("ops", ops_json(ops, i, from)).str();
+    }
+  } F{s, ops, hf, 0, 0, false, 0.0, 0.0L, 0.0L, "", s.W};
+  auto params = [&F]() {return F.params();};
 
   for (size_t i = 0; i < ops.size(); ++i) {
+    const bool observe = i >= s.observe_from;
     if (ops[i].reset) {
       if (!hist.empty()) {
         had_reset_after_data = true;
         if (hist.size() % (size_t)W != 0) {hf.reset_mid_window = true;}
       }
       hist.clear();
+      if (observe && s.allow_reconfigure && rs.coin(0.08)) {      // new window size immediately before the reset
+        W = new_window();
+        obj->setWindowSize((size_t)W);
+      }
       obj->reset();
       ++hf.resets;
     } else {
       hist.push_back(ops[i].v);
-      obj->update(ops[i].x);
+      switch (observe ? (int)rs.range(0, 5) : 0) {
+        case 1: obj->update(double(ops[i].x)); break;                         // prvalue
+        case 2: {double t = ops[i].x; obj->update(std::move(t)); break;}      // xvalue
+        case 3: {double t = ops[i].x; obj->update(t); t = -7.25e7; (void)t; break;}   // local, clobbered afterwards
+        default: obj->update(ops[i].x); break;
+      }
       ++hf.updates;
       if (had_reset_after_data) {hf.reset_then_update = true;}
       if ((long long)hist.size() > W) {hf.wrapped = true;}
     }
+    if (!observe) {continue;}
+    if (rs.coin(0.03)) {obj->setWindowSize(obj->getWindowSize()); ++hf.self_set;}     // same size, own member by reference
+    if (hist.empty() && s.allow_reconfigure && rs.coin(0.12)) {   // new window size while the window is empty
+      W = new_window();
+      if (rs.coin()) {obj->setWindowSize((size_t)W);} else {const size_t nw = (size_t)W; obj->setWindowSize(nw);}
+    }
+    F.W = W;
+    if (rs.coin(0.1)) {abuse(*sib, rs, (int)rs.range(1, 3), sib_amp); ++hf.sibling_bursts;}
     const long long n = (long long)hist.size();
     const long long cnt = std::min<long long>(n, W);
-    // everything the (rarely called) params / witness builders need lives in F, so that the
-    // closures below hold a single reference (no heap allocation inside std::function)
-    struct Frame
-    {
-      const StatCfg & s; const std::vector<Op> & ops; const HistoryFacts & hf; size_t i; long long n;
-      bool avail; double got; LD expected; LD sumsq;
-      vh::Params params() const
-      {
-        return vh::Params{{"W", (double)s.W}, {"precision", s.prec.p}, {"multiplier", (double)s.prec.m},
-          {"variance_object", s.variance ? 1.0 : 0.0}, {"n_since_reset", (double)n},
-          {"resets", (double)hf.resets}, {"n_over_W", (double)(n - s.W)},
-          {"via_setWindowSize", s.via_set_window ? 1.0 : 0.0}, {"op_index", (double)i}};
-      }
-      std::string wit() const
-      {
-        return vh::J().s("cat", s.cat).s("class", s.variance ? "OnlineVariance" : "OnlineAverage")
-               .f("W", s.W).f("precision", s.prec.p).f("multiplier", (int64_t)s.prec.m)
-               .boolean("via_setWindowSize", s.via_set_window).f("failing_op", (uint64_t)i)
-               .raw("ops", ops_json(ops, i)).str();
-      }
-    } F{s, ops, hf, i, n, false, 0.0, 0.0L, 0.0L};
-    auto params = [&F]() {return F.params();};
+    F.i = i; F.n = n; F.note = "";
+    const bool after_copy = hf.copies > 0;
     // --- availability: exactly when W samples have arrived since the last reset
     F.avail = obj->isAvailable();
-    if (!c.expect("availability.iff_window_full", F.avail == (n >= W), "availability_mismatch", params,
+    if (!c.expect("availability.iff_window_full", F.avail == (n >= W),
+      after_copy ? "availability_mismatch_after_copy" : "availability_mismatch", params,
       [&F]() {return vh::J().raw("case", F.wit()).boolean("isAvailable", F.avail).f("n", (int64_t)F.n).str();}))
     {
       return false;
     }
-    if (n == 0) {continue;}       // mean of zero samples: nothing stated
-    // --- average
-    I128 S = 0, Q = 0;
-    for (long long k = n - cnt; k < n; ++k) {S += hist[(size_t)k]; Q += (I128)hist[(size_t)k] * hist[(size_t)k];}
-    LD mean = (LD)S / ((LD)m * (LD)cnt);
-    F.got = obj->getAverage();
-    F.expected = mean;
-    LD err = fabsl((LD)F.got - mean);
-    if (!c.expect_le("average.vs_exact_mean", err, 4 * (LD)EPS * fabsl(mean), "average_mismatch", params,
-      [&F]() {return vh::J().raw("case", F.wit()).f("got", F.got).f("expected", F.expected).f("n", (int64_t)F.n).str();}))
-    {
-      return false;
-    }
-    // --- variance, once the window is full
-    if (var != nullptr && n >= W) {
-      I128 num = (I128)W * Q - S * S;                 // >= 0 (Cauchy-Schwarz), exact
-      LD den = (LD)W * (LD)(W - 1) * (LD)m * (LD)m;
-      LD expv = (LD)num / den;
-      LD sumsq = (LD)Q / ((LD)m * (LD)m);
-      F.got = var->getVariance();
-      F.expected = expv;
-      F.sumsq = sumsq;
-      LD verr = fabsl((LD)F.got - expv);
-      if (!c.expect_le("variance.vs_exact_unbiased", verr, 16 * (LD)EPS * sumsq / (LD)(W - 1),
-        "variance_mismatch", params,
-        [&F]() {return vh::J().raw("case", F.wit()).f("got", F.got).f("expected", F.expected).f("sum_x2", F.sumsq).str();}))
+    if (n > 0) {       // mean of zero samples: nothing stated
+      // --- average
+      I128 S = 0, Q = 0;
+      for (long long k = n - cnt; k < n; ++k) {S += hist[(size_t)k]; Q += (I128)hist[(size_t)k] * hist[(size_t)k];}
+      LD mean = (LD)S / ((LD)m * (LD)cnt);
+      F.got = obj->getAverage();
+      F.expected = mean;
+      LD err = fabsl((LD)F.got - mean);
+      if (!c.expect_le("average.vs_exact_mean", err, 4 * (LD)EPS * fabsl(mean),
+        after_copy ? "average_mismatch_after_copy" : "average_mismatch", params,
+        [&F]() {return vh::J().raw("case", F.wit()).f("got", F.got).f("expected", F.expected).f("n", (int64_t)F.n).str();}))
       {
         return false;
       }
+      // --- variance, once the window is full
+      if (var != nullptr && n >= W) {
+        I128 num = (I128)W * Q - S * S;                 // >= 0 (Cauchy-Schwarz), exact
+        LD den = (LD)W * (LD)(W - 1) * (LD)m * (LD)m;
+        LD expv = (LD)num / den;
+        LD sumsq = (LD)Q / ((LD)m * (LD)m);
+        F.got = var->getVariance();
+        F.expected = expv;
+        F.sumsq = sumsq;
+        LD verr = fabsl((LD)F.got - expv);
+        if (!c.expect_le("variance.vs_exact_unbiased", verr, 16 * (LD)EPS * sumsq / (LD)(W - 1),
+          after_copy ? "variance_mismatch_after_copy" : "variance_mismatch", params,
+          [&F]() {return vh::J().raw("case", F.wit()).f("got", F.got).f("expected", F.expected).f("sum_x2", F.sumsq).str();}))
+        {
+          return false;
+        }
+      }
+    }
+    // --- value semantics: copy in the middle of the history
+    if (i == copy_at) {
+      const int how = (int)rs.range(0, 3);
+      Shown before = show(*obj, var);
+      OnlineAverage * cp;
+      if (how == 3) {          // from an rvalue (resolves to the copy constructor)
+        cp = var ? static_cast<OnlineAverage *>(new OnlineVariance(std::move(*var))) : new OnlineAverage(std::move(*obj));
+      } else {
+        cp = var ? static_cast<OnlineAverage *>(new OnlineVariance(*var)) : new OnlineAverage(*obj);
+      }
+      std::unique_ptr<OnlineAverage> copy(cp);
+      OnlineVariance * cvar = var ? static_cast<OnlineVariance *>(cp) : nullptr;
+      ++hf.copies;
+      Shown of_copy = show(*copy, cvar), of_src = show(*obj, var);
+      F.note = "immediately after copy-construction: the copy and the source must show what the source showed";
+      if (!c.expect("copy.shows_same_as_source", of_copy == before && of_src == before, "copy_differs_from_source",
+        params, [&F]() {return F.wit();}))
+      {
+        return false;
+      }
+      if (how == 0) {               // the copy is used for something else and dropped; the source goes on
+        abuse(*copy, rs, (int)rs.range(1, 2 * W + 2), own_amp);
+        copy.reset();
+        c.cat("stats_copy_discarded_source_continues");
+      } else {                      // the copy goes on; the source is used for something else, then destroyed
+        if (*wref != (size_t)W) {
+          F.note = "reference returned by getWindowSize() no longer reads W";
+          c.expect("stability.shown_state", false, "observation_unstable", params, [&F]() {return F.wit();});
+          return false;
+        }
+        std::swap(obj, copy);
+        var = cvar;
+        wref = &obj->getWindowSize();
+        abuse(*copy, rs, (int)rs.range(1, 2 * W + 2), own_amp);
+        copy->reset();
+        copy.reset();
+        c.cat(how == 3 ? "stats_copy_from_rvalue_continues_source_destroyed" : "stats_copy_continues_source_destroyed");
+      }
+      F.note = "after the other object of the copy pair was driven and destroyed";
+      if (!c.expect("copy.independent_of_other_object", show(*obj, var) == before, "copy_not_independent",
+        params, [&F]() {return F.wit();}))
+      {
+        return false;
+      }
+    }
+  }
+  // --- result stability / interference at the end of the case
+  {
+    F.i = ops.empty() ? 0 : ops.size() - 1; F.n = (long long)hist.size();
+    Shown first = show(*obj, var);
+    size_t w_by_ref = *wref;
+    abuse(*sib, rs, 6, sib_amp);
+    {
+      std::unique_ptr<OnlineAverage> third(make());
+      if (s.via_set_window) {third->setWindowSize((size_t)W);}
+      abuse(*third, rs, 4, own_amp);
+    }
+    Shown again = show(*obj, var);
+    F.note = "end of case: state shown twice with sibling objects driven / created / destroyed in between";
+    if (!c.expect("stability.shown_state", first == again && w_by_ref == (size_t)W && *wref == (size_t)W,
+      "observation_unstable", params, [&F]() {return F.wit();}))
+    {
+      return false;
     }
   }
   return true;
@@ -375,6 +523,14 @@ static void note_facts(vh::Ctx & c, const HistoryFacts & hf, const char * prefix
     c.count(p + "_alias_appends", (uint64_t)hf.alias_appends);
   }
   if (hf.alias_perm_of_evicted) {c.cat(p + "_append_permuting_expr_of_evicted_entry");}
+  if (hf.copies > 0) {c.cat(p + "_copied_or_assigned_mid_history"); c.count(p + "_copy_events", (uint64_t)hf.copies);}
+  if (hf.self_set > 0) {c.cat(p + "_setWindowSize_with_own_getter_reference");}
+  if (hf.reconfigured > 0) {c.cat(p + "_window_resized_while_empty"); c.count(p + "_window_resizes", (uint64_t)hf.reconfigured);}
+  if (hf.sibling_bursts > 0) {c.cat(p + "_sibling_object_interleaved");}
+  if (hf.own_getter_appends > 0) {c.cat(p + "_append_reference_from_own_get");}
+  if (hf.rvalue_appends > 0) {c.cat(p + "_append_rvalue");}
+  if (hf.ref_checks > 0) {c.cat(p + "_references_kept_and_reread"); c.count(p + "_reference_rereads", (uint64_t)hf.ref_checks);}
+  if (hf.extreme_items) {c.cat(p + "_items_extreme_inf_nan_denormal");}
   c.count(p + "_updates", (uint64_t)hf.updates);
   c.count(p + "_resets", (uint64_t)hf.resets);
 }
@@ -389,23 +545,129 @@ static void note_facts(vh::Ctx & c, const HistoryFacts & hf, const char * prefix
 // the reference model evaluates the same expression on its own copy of the entries before the append.
 struct AliasRec {int kind; int k; int j;};
 static const char * const ALIAS_NAME[] = {"append", "append:ring[k]", "append:ring[k].reverse()", "append:-ring[k]",
-  "append:ring[k]+ring[j]", "append:2*ring[k]", "append:ring[k].reverse()+ring[j]", "append:ring[k](cyclic shift)"};
+  "append:ring[k]+ring[j]", "append:2*ring[k]", "append:ring[k].reverse()+ring[j]", "append:ring[k](cyclic shift)",
+  "append:ring.get()[slot k]", "append:const ring.get().back()", "append(temporary)", "append(std::move(local))"};
+
+// Further lessons applied to the ring (all decisions from the stream `ra`):
+//   own getters     ring.append(ring.get()[slot]) / the const get().back(): reference from the object's own accessor
+//   value category  append(V(v)) and append(std::move(local))
+//   value semantics in the middle of the history the ring is copy-constructed, copy-assigned over a ring of another
+//                   capacity and content, move-constructed, move-assigned, or assigned to itself; the source is then
+//                   cleared / refilled / destroyed and the history continues on the copy (or the copy is abused and
+//                   dropped and the history continues on the source)
+//   interference    a sibling ring of another capacity is appended to / cleared between mutation and observation
+//   stability       references bound to ring[0] and ring[size-1] are re-read after const calls and sibling activity
+//   accessors       get() const and non-const: same size as size(), every ring[k] lives inside get()'s storage
+//   magnitudes      items with +-max, +-min, denormals, signed zeros, +-inf and NaN components (bit-exact comparison)
+//   instantiations  Vector2d/3d/4d/6d, Vector2f/3f/4f, Vector3i, VectorXd (dynamic, 5 rows)
+template<class V> static bool same_bits(const V & a, const V & b)
+{
+  if (a.size() != b.size()) {return false;}
+  for (Eigen::Index d = 0; d < a.size(); ++d) {
+    if (std::memcmp(&a.coeffRef(d), &b.coeffRef(d), sizeof(typename V::Scalar)) != 0) {return false;}
+  }
+  return true;
+}
+template<class V> static V new_vec()
+{
+  if constexpr (V::RowsAtCompileTime == Eigen::Dynamic) {return V(5);} else {return V();}
+}
+template<class Sc> static Sc extreme_scalar(vh::Rng & ra)
+{
+  typedef std::numeric_limits<Sc> L;
+  if (L::is_integer) {
+    switch ((int)ra.range(0, 3)) {case 0: return L::max(); case 1: return L::min(); case 2: return Sc(0); default: return Sc(-1);}
+  }
+  switch ((int)ra.range(0, 9)) {
+    case 0: return L::max(); case 1: return L::lowest(); case 2: return L::min(); case 3: return L::denorm_min();
+    case 4: return Sc(0); case 5: return -Sc(0); case 6: return L::infinity(); case 7: return -L::infinity();
+    case 8: return L::quiet_NaN(); default: return -L::denorm_min();
+  }
+}
 
 template<class V>
 static bool run_ring(vh::Ctx & c, vh::Rng & ra, int cap, const std::vector<Op> & ops, const char * cat,
-  const char * tname, HistoryFacts & hf)
+  const char * tname, HistoryFacts & hf, size_t observe_from)
 {
   typedef typename V::Scalar Sc;
-  constexpr int N = V::RowsAtCompileTime;
-  std::array<int, N> shift;
-  for (int d = 0; d < N; ++d) {shift[(size_t)d] = (d + 1) % N;}
+  typedef RingOfEigenVector<V> Ring;
+  const bool is_int = std::numeric_limits<Sc>::is_integer;
+  const double arith_limit = is_int ? 5e8 : 1e30;
+  const int N = (int)new_vec<V>().size();
+  Eigen::ArrayXi shift(N);
+  for (int d = 0; d < N; ++d) {shift(d) = (d + 1) % N;}
   std::vector<AliasRec> recs(ops.size(), AliasRec{0, 0, 0});
-  RingOfEigenVector<V> ring((size_t)cap);
+  std::unique_ptr<Ring> ringp(new Ring((size_t)cap));
+  const int sib_cap = (int)ra.range(1, 9);
+  Ring sib((size_t)sib_cap);
+  auto sib_activity = [&]() {
+      if (ra.coin(0.15)) {sib.clear();}
+      V t = new_vec<V>();
+      for (int d = 0; d < N; ++d) {t(d) = (Sc)(-3 - d);}
+      sib.append(t);
+      if (sib.size() > 0) {(void)sib[sib.size() - 1];}
+    };
+  const bool extreme = ra.coin(0.1);
+  if (extreme) {hf.extreme_items = true;}
+  const size_t copy_at = (!ops.empty() && ra.coin(0.3)) ?
+    (size_t)ra.range((int64_t)observe_from, (int64_t)ops.size() - 1) : (size_t)-1;
   std::vector<V, Eigen::aligned_allocator<V>> hist;     // everything appended since the last clear
   bool had_clear_after_data = false;
   int serial = 0;
   bool pow2 = (cap & (cap - 1)) == 0;
+
+  struct Frame
+  {
+    const std::vector<Op> & ops; const std::vector<AliasRec> & recs; const HistoryFacts & hf;
+    const std::unique_ptr<Ring> & ringp;
+    const std::vector<V, Eigen::aligned_allocator<V>> & hist;
+    const char * cat; const char * tname; int cap; bool pow2; size_t i; long long n; long long kbad; size_t sz;
+    const char * note;
+    vh::Params params() const
+    {
+      return vh::Params{{"capacity", (double)cap}, {"capacity_is_pow2", pow2 ? 1.0 : 0.0},
+        {"n_since_clear", (double)n}, {"clears", (double)hf.resets}, {"k", (double)kbad},
+        {"n_over_capacity", (double)(n - cap)}, {"op_index", (double)i},
+        {"alias_kind_of_failing_op", (double)recs[i].kind}, {"alias_appends", (double)hf.alias_appends},
+        {"copies", (double)hf.copies}};
+    }
+    std::string wit() const
+    {
+      size_t from = i > 200 ? i - 200 : 0;
+      std::string o = "[";
+      for (size_t j = from; j <= i; ++j) {
+        if (j > from) {o += ",";}
+        if (ops[j].reset) {o += "\"clear\""; continue;}
+        o += "\"" + std::string(ALIAS_NAME[recs[j].kind]);
+        if (recs[j].kind >= 1 && recs[j].kind <= 8) {o += " k=" + std::to_string(recs[j].k) + " j=" + std::to_string(recs[j].j);}
+        o += "\"";
+      }
+      o += "]";
+      return vh::J().s("cat", cat).s("element", tname).f("capacity", cap).f("failing_op", (uint64_t)i)
+             .f("copies_before", hf.copies).s("note", note).f("ops_shown_from", (uint64_t)from).raw("ops", o).str();
+    }
+  } F{ops, recs, hf, ringp, hist, cat, tname, cap, pow2, 0, 0, -1, 0, ""};
+  auto params = [&F]() {return F.params();};
+
+  // compares the whole ring with the model; fills F.kbad
+  auto entries_ok = [&](const Ring & rg, long long n) {
+      const long long es = std::min<long long>(n, cap);
+      for (long long k = 0; k < es; ++k) {
+        if (!same_bits(rg[(size_t)k], hist[(size_t)(n - 1 - k)])) {F.kbad = k; return false;}
+      }
+      return true;
+    };
+  auto entry_witness = [&F]() {
+      const V & got = (*F.ringp)[(size_t)F.kbad];
+      const V & exp = F.hist[(size_t)(F.n - 1 - F.kbad)];
+      return vh::J().raw("case", F.wit()).f("k", (int64_t)F.kbad).raw("got", vh::jvec(got))
+             .raw("expected", vh::jvec(exp)).f("got_first_component", (double)got(0))
+             .f("expected_first_component", (double)exp(0)).str();
+    };
+
   for (size_t i = 0; i < ops.size(); ++i) {
+    Ring & ring = *ringp;
+    const bool observe = i >= observe_from;
     if (ops[i].reset) {
       if (!hist.empty()) {
         had_clear_after_data = true;
@@ -415,30 +677,44 @@ static bool run_ring(vh::Ctx & c, vh::Rng & ra, int cap, const std::vector<Op> &
       ring.clear();
       ++hf.resets;
     } else {
-      V v;
+      V v = new_vec<V>();
       ++serial;
-      for (int d = 0; d < v.size(); ++d) {
-        v(d) = (typename V::Scalar)(d == 0 ? (double)serial : ops[i].x + d);
+      for (int d = 0; d < N; ++d) {
+        v(d) = (Sc)(d == 0 ? (double)serial : ops[i].x + d);
+      }
+      if (extreme && ra.coin(0.5)) {
+        for (int d = 0; d < N; ++d) {if (ra.coin(0.6)) {v(d) = extreme_scalar<Sc>(ra);}}
       }
       AliasRec ar{0, 0, 0};
       const long long sz0 = std::min<long long>((long long)hist.size(), cap);
-      if (sz0 > 0 && ra.coin(0.35)) {
-        ar.kind = (int)ra.range(1, 7);
+      if (observe && sz0 > 0 && ra.coin(0.35)) {
+        ar.kind = (int)ra.range(1, 9);
         ar.k = ra.coin(0.45) ? (int)(sz0 - 1) : (int)ra.range(0, sz0 - 1);
         ar.j = (int)ra.range(0, sz0 - 1);
         const V mk = hist[hist.size() - 1 - (size_t)ar.k], mj = hist[hist.size() - 1 - (size_t)ar.j];   // model copies
-        V e;
+        // arithmetic on the entries only while it cannot overflow / produce NaN (repeated doubling and summing)
+        const bool arith_ok = mk.template cast<double>().allFinite() && mj.template cast<double>().allFinite() &&
+          mk.template cast<double>().cwiseAbs().maxCoeff() < arith_limit &&
+          mj.template cast<double>().cwiseAbs().maxCoeff() < arith_limit;
+        V e = new_vec<V>();
+        bool usable = true;
         switch (ar.kind) {
           case 1: e = mk; break;
           case 2: e = mk.reverse(); break;
-          case 3: e = -mk; break;
-          case 4: e = mk + mj; break;
-          case 5: e = Sc(2) * mk; break;
-          case 6: e = mk.reverse() + mj; break;
-          default: for (int d = 0; d < N; ++d) {e(d) = mk((d + 1) % N);} break;
+          case 3: if (arith_ok) {e = -mk;} else {usable = false;} break;
+          case 4: if (arith_ok) {e = mk + mj;} else {usable = false;} break;
+          case 5: if (arith_ok) {e = Sc(2) * mk;} else {usable = false;} break;
+          case 6: if (arith_ok) {e = mk.reverse() + mj;} else {usable = false;} break;
+          case 7: for (int d = 0; d < N; ++d) {e(d) = mk((d + 1) % N);} break;
+          case 8:   // raw storage slot through the non-const accessor: the value is whatever is there at the call
+            ar.k = (int)ra.range(0, (int64_t)ring.get().size() - 1);
+            e = ring.get()[(size_t)ar.k];
+            break;
+          default: e = static_cast<const Ring &>(ring).get().back(); break;
         }
-        // keep magnitudes bounded (repeated doubling / summing) so that no inf/NaN can arise
-        if (e.allFinite() && (double)e.cwiseAbs().maxCoeff() < 1e30) {v = e;} else {ar.kind = 0;}
+        if (usable) {v = e;} else {ar.kind = 0;}
+      } else if (observe && ra.coin(0.3)) {
+        ar.kind = ra.coin() ? 10 : 11;
       }
       recs[i] = ar;
       const size_t k = (size_t)ar.k, j = (size_t)ar.j;
@@ -450,51 +726,34 @@ static bool run_ring(vh::Ctx & c, vh::Rng & ra, int cap, const std::vector<Op> &
         case 4: ring.append(ring[k] + ring[j]); break;
         case 5: ring.append(Sc(2) * ring[k]); break;
         case 6: ring.append(ring[k].reverse() + ring[j]); break;
-        default: ring.append(ring[k](shift)); break;
+        case 7: ring.append(ring[k](shift)); break;
+        case 8: ring.append(ring.get()[k]); break;
+        case 9: ring.append(static_cast<const Ring &>(ring).get().back()); break;
+        case 10: ring.append(V(v)); break;
+        default: {V t = v; ring.append(std::move(t)); break;}
       }
-      if (ar.kind != 0) {
+      if (ar.kind >= 1 && ar.kind <= 9) {
         ++hf.alias_appends;
+        if (ar.kind >= 8) {++hf.own_getter_appends;}
         if ((ar.kind == 2 || ar.kind == 6 || ar.kind == 7) && sz0 == cap && ar.k == (int)(sz0 - 1) && N > 1) {
           hf.alias_perm_of_evicted = true;
         }
+      } else if (ar.kind >= 10) {
+        ++hf.rvalue_appends;
       }
       hist.push_back(v);
       ++hf.updates;
       if (had_clear_after_data) {hf.reset_then_update = true;}
       if ((int)hist.size() > cap) {hf.wrapped = true;}
     }
+    if (!observe) {continue;}
+    if (ra.coin(0.1)) {sib_activity(); ++hf.sibling_bursts;}
     const long long n = (long long)hist.size();
     const long long expect_size = std::min<long long>(n, cap);
-    struct Frame
-    {
-      const std::vector<Op> & ops; const std::vector<AliasRec> & recs; const HistoryFacts & hf;
-      const RingOfEigenVector<V> & ring;
-      const std::vector<V, Eigen::aligned_allocator<V>> & hist;
-      const char * cat; const char * tname; int cap; bool pow2; size_t i; long long n; long long kbad; size_t sz;
-      vh::Params params() const
-      {
-        return vh::Params{{"capacity", (double)cap}, {"capacity_is_pow2", pow2 ? 1.0 : 0.0},
-          {"n_since_clear", (double)n}, {"clears", (double)hf.resets}, {"k", (double)kbad},
-          {"n_over_capacity", (double)(n - cap)}, {"op_index", (double)i},
-          {"alias_kind_of_failing_op", (double)recs[i].kind}, {"alias_appends", (double)hf.alias_appends}};
-      }
-      std::string wit() const
-      {
-        std::string o = "[";
-        for (size_t j = 0; j <= i; ++j) {
-          if (j) {o += ",";}
-          if (ops[j].reset) {o += "\"clear\""; continue;}
-          o += "\"" + std::string(ALIAS_NAME[recs[j].kind]);
-          if (recs[j].kind != 0) {o += " k=" + std::to_string(recs[j].k) + " j=" + std::to_string(recs[j].j);}
-          o += "\"";
-        }
-        o += "]";
-        return vh::J().s("cat", cat).s("element", tname).f("capacity", cap).f("failing_op", (uint64_t)i)
-               .raw("ops", o).str();
-      }
-    } F{ops, recs, hf, ring, hist, cat, tname, cap, pow2, i, n, -1, ring.size()};
-    auto params = [&F]() {return F.params();};
-    if (!c.expect("ring.size_is_min_n_capacity", (long long)F.sz == expect_size, "ring_size_mismatch", params,
+    const bool after_copy = hf.copies > 0;
+    F.i = i; F.n = n; F.kbad = -1; F.sz = ring.size(); F.note = "";
+    if (!c.expect("ring.size_is_min_n_capacity", (long long)F.sz == expect_size,
+      after_copy ? "ring_size_mismatch_after_copy" : "ring_size_mismatch", params,
       [&F]() {
         return vh::J().raw("case", F.wit()).f("size", (uint64_t)F.sz)
                .f("expected", (int64_t)std::min<long long>(F.n, F.cap)).str();
@@ -502,38 +761,131 @@ static bool run_ring(vh::Ctx & c, vh::Rng & ra, int cap, const std::vector<Op> &
     {
       return false;
     }
-    bool ok = true;
-    for (long long k = 0; k < expect_size; ++k) {
-      const V & got = ring[(size_t)k];
-      const V & exp = hist[(size_t)(n - 1 - k)];
-      if (!(got.array() == exp.array()).all()) {ok = false; F.kbad = k; break;}
-    }
     if (expect_size > 0) {
-      if (!c.expect("ring.kth_most_recent", ok, "ring_entry_mismatch", params, [&F]() {
-          const V & got = F.ring[(size_t)F.kbad];
-          const V & exp = F.hist[(size_t)(F.n - 1 - F.kbad)];
-          return vh::J().raw("case", F.wit()).f("k", (int64_t)F.kbad).raw("got", vh::jvec(got))
-                 .raw("expected", vh::jvec(exp)).f("got_is_append_number", (double)got(0))
-                 .f("expected_append_number", (double)exp(0)).str();
-        }))
+      bool ok = entries_ok(ring, n);
+      if (!c.expect("ring.kth_most_recent", ok, after_copy ? "ring_entry_mismatch_after_copy" : "ring_entry_mismatch",
+        params, entry_witness))
       {
         return false;
       }
+    }
+    // --- accessors: get() const / non-const agree with size(); entries live inside get()'s storage
+    {
+      const Ring & cr = ring;
+      bool acc = ring.get().size() == F.sz && cr.get().size() == F.sz && &ring.get() == &cr.get();
+      if (F.sz > 0) {
+        const V * lo = cr.get().data(), * hi = lo + F.sz;
+        const V * p0 = &cr[0], * pl = &cr[F.sz - 1];
+        acc = acc && p0 >= lo && p0 < hi && pl >= lo && pl < hi;
+      }
+      F.note = "get() const / non-const vs size() and operator[]";
+      if (!c.expect("ring.accessors_consistent", acc, "ring_accessor_mismatch", params, [&F]() {return F.wit();})) {
+        return false;
+      }
+    }
+    // --- result stability: references kept across const calls and sibling activity
+    if (F.sz > 0 && ra.coin(0.2)) {
+      const Ring & cr = ring;
+      const V & newest = cr[0];
+      const V & oldest = cr[F.sz - 1];
+      size_t kk = (size_t)ra.range(0, (int64_t)F.sz - 1);
+      (void)cr.size(); (void)cr.get(); (void)cr[kk]; (void)ring.get();
+      sib_activity();
+      {Ring tmp((size_t)cap); tmp.append(hist.back()); tmp.clear();}
+      bool st = same_bits(newest, hist[(size_t)(n - 1)]) && same_bits(oldest, hist[(size_t)(n - expect_size)]) &&
+        &newest == &cr[0] && &oldest == &cr[F.sz - 1];
+      ++hf.ref_checks;
+      F.note = "references to ring[0] / ring[size-1] re-read after const calls, sibling-ring activity, a temporary ring";
+      if (!c.expect("ring.references_stable", st, "ring_reference_unstable", params, [&F]() {return F.wit();})) {
+        return false;
+      }
+    }
+    // --- value semantics in the middle of the history
+    if (i == copy_at) {
+      const int how = (int)ra.range(0, 6);
+      ++hf.copies;
+      auto junk = [&](Ring & g, int cnt) {
+          for (int t = 0; t < cnt; ++t) {
+            if (ra.coin(0.2)) {g.clear();}
+            V q = new_vec<V>();
+            for (int d = 0; d < N; ++d) {q(d) = (Sc)(-100 - t - d);}
+            g.append(q);
+          }
+        };
+      switch (how) {
+        case 0: {   // copy-construct, continue on the copy, the source is refilled and destroyed
+            std::unique_ptr<Ring> cp(new Ring(*ringp));
+            std::swap(cp, ringp); junk(*cp, cap + 2); cp.reset();
+            c.cat("ring_copy_constructed_continues"); break;
+          }
+        case 1: {   // copy-assign over a ring of another capacity holding other items
+            std::unique_ptr<Ring> cp(new Ring((size_t)ra.range(1, 20)));
+            junk(*cp, (int)ra.range(0, 24));
+            *cp = *ringp;
+            std::swap(cp, ringp); junk(*cp, cap + 2); cp.reset();
+            c.cat("ring_copy_assigned_continues"); break;
+          }
+        case 2: {   // move-construct, the source is destroyed
+            std::unique_ptr<Ring> cp(new Ring(std::move(*ringp)));
+            std::swap(cp, ringp); cp.reset();
+            c.cat("ring_move_constructed_continues"); break;
+          }
+        case 3: {   // move-assign over a used ring; the source is overwritten with a fresh ring, used, destroyed
+            std::unique_ptr<Ring> cp(new Ring((size_t)ra.range(1, 20)));
+            junk(*cp, (int)ra.range(0, 24));
+            *cp = std::move(*ringp);
+            std::swap(cp, ringp); *cp = Ring((size_t)3); junk(*cp, 5); cp.reset();
+            c.cat("ring_move_assigned_continues"); break;
+          }
+        case 4: {   // self-assignment
+            Ring & alias = *ringp;
+            *ringp = alias;
+            c.cat("ring_self_assigned"); break;
+          }
+        default: {  // the copy is used for something else and dropped; the source goes on
+            std::unique_ptr<Ring> cp(how == 5 ? new Ring(*ringp) : new Ring((size_t)1));
+            if (how == 6) {*cp = *ringp;}
+            junk(*cp, cap + 2); cp.reset();
+            c.cat("ring_copy_discarded_source_continues"); break;
+          }
+      }
+      F.sz = ringp->size(); F.kbad = -1;
+      F.note = "immediately after copy / move / assignment (the other ring of the pair refilled and destroyed)";
+      bool same = (long long)F.sz == expect_size && entries_ok(*ringp, n);
+      if (!c.expect("ring.copy_holds_same_items", same, "ring_copy_differs", params, [&F]() {return F.wit();})) {
+        return false;
+      }
+    }
+  }
+  // --- end of case: everything re-read after sibling activity
+  if (!hist.empty() || !ops.empty()) {
+    const long long n = (long long)hist.size();
+    F.i = ops.empty() ? 0 : ops.size() - 1; F.n = n; F.kbad = -1;
+    sib_activity(); sib_activity();
+    F.sz = ringp->size();
+    F.note = "end of case: ring re-read after sibling-ring activity";
+    bool same = (long long)F.sz == std::min<long long>(n, cap) && entries_ok(*ringp, n);
+    if (!c.expect("ring.references_stable", same, "ring_reference_unstable", params, [&F]() {return F.wit();})) {
+      return false;
     }
   }
   return true;
 }
 
+static const int N_RING_TYPES = 9;
 static bool run_ring_typed(vh::Ctx & c, vh::Rng & ra, int type, int cap, const std::vector<Op> & ops,
-  const char * cat, HistoryFacts & hf)
+  const char * cat, HistoryFacts & hf, size_t observe_from = 0)
 {
   switch (type) {
-    case 0: return run_ring<Eigen::Vector2d>(c, ra, cap, ops, cat, "Vector2d", hf);
-    case 1: return run_ring<Eigen::Vector3d>(c, ra, cap, ops, cat, "Vector3d", hf);
-    case 2: return run_ring<Eigen::Vector4d>(c, ra, cap, ops, cat, "Vector4d", hf);
-    case 3: return run_ring<Eigen::Vector2f>(c, ra, cap, ops, cat, "Vector2f", hf);
-    case 4: return run_ring<Eigen::Vector3f>(c, ra, cap, ops, cat, "Vector3f", hf);
-    default: return run_ring<Eigen::Matrix<double, 6, 1>>(c, ra, cap, ops, cat, "Vector6d", hf);
+    case 0: return run_ring<Eigen::Vector2d>(c, ra, cap, ops, cat, "Vector2d", hf, observe_from);
+    case 1: return run_ring<Eigen::Vector3d>(c, ra, cap, ops, cat, "Vector3d", hf, observe_from);
+    case 2: return run_ring<Eigen::Vector4d>(c, ra, cap, ops, cat, "Vector4d", hf, observe_from);
+    case 3: return run_ring<Eigen::Vector2f>(c, ra, cap, ops, cat, "Vector2f", hf, observe_from);
+    case 4: return run_ring<Eigen::Vector3f>(c, ra, cap, ops, cat, "Vector3f", hf, observe_from);
+    case 5: return run_ring<Eigen::Matrix<double, 6, 1>>(c, ra, cap, ops, cat, "Vector6d", hf, observe_from);
+    case 6: return run_ring<Eigen::Vector4f>(c, ra, cap, ops, cat, "Vector4f", hf, observe_from);
+    case 7: return run_ring<Eigen::Vector3i>(c, ra, cap, ops, cat, "Vector3i", hf, observe_from);
+    default: return run_ring<Eigen::VectorXd>(c, ra, cap, ops, cat, "VectorXd(5)", hf, observe_from);
   }
 }
 
@@ -561,7 +913,7 @@ static void exhaustive_case(vh::Ctx & c, vh::Rng & r, uint64_t idx)
   b.x = a.x;
   for (int t = 0; t < 50 && b.x == a.x; ++t) {b.x = sample(r, g, b.v);}
   if (b.x == a.x) {b.x = a.x + 1.0 / (double)prec.m; if (!exact_trunc(b.x, prec.m, b.v)) {b = a;}}
-  int rtype = (int)r.range(0, 5);
+  int rtype = (int)r.range(0, N_RING_TYPES - 1);
   bool via_set = r.coin(0.25);
   c.distinct(vh::hash_doubles({-1.0, (double)combo.cls, (double)combo.W, (double)block, prec.p, a.x, b.x}), true);
   c.sample(cat, [&]() {
@@ -583,7 +935,9 @@ static void exhaustive_case(vh::Ctx & c, vh::Rng & r, uint64_t idx)
       note_facts(c, hf, "exh_ring");
     } else {
       StatCfg s{combo.cls == 1, combo.W, prec, via_set, cat};
-      ok = run_stats(c, s, ops, hf);
+      s.allow_reconfigure = false;       // keeps the scope W <= 3
+      vh::Rng rs(c.seed, idx, 200 + (uint64_t)tail);
+      ok = run_stats(c, rs, s, ops, hf);
       note_facts(c, hf, combo.cls == 1 ? "exh_variance" : "exh_average");
     }
     c.count("exhaustive_sequences");
@@ -592,10 +946,71 @@ static void exhaustive_case(vh::Ctx & c, vh::Rng & r, uint64_t idx)
 }
 
 // ---------------------------------------------------------------------------------------------
+// long histories: one cheap mutator repeated 2^8+k or 2^16+k times (k = 0..W+3) before the first
+// observation (8/16-bit counters, wrap-around of the replacement index), then W+3 observed operations.
+//   shape 0: that many update()/append();  shape 1: a few samples, then that many reset()/clear();
+//   shape 2: alternating sample / reset.
+// (Longer than the 10 W of the statement's quantifier, but "no accumulated drift" is about exactly this.)
+// ---------------------------------------------------------------------------------------------
+static void long_history_case(vh::Ctx & c, vh::Rng & r, uint64_t idx)
+{
+  const char * cat = "long_history";
+  c.cat(cat);
+  const int cls = (int)r.range(0, 2);
+  // (the valgrind flavour replays case indices < 3000 at ~50x slowdown: only the 2^8 variant there)
+  const bool big = r.coin(0.3) && idx >= 3000;
+  const int W = cls == 2 ? (int)r.range(1, 16) : (int)r.range(cls == 1 ? 2 : 1, 64);
+  const long long reps = (big ? 65536 : 256) + r.range(0, W + 3);
+  const int shape = (int)r.range(0, 3) % 3;     // shape 0 twice as likely
+  c.cat(big ? "long_history_2pow16_plus_k" : "long_history_2pow8_plus_k");
+  c.cat(std::string("long_history_") + (cls == 0 ? "average" : cls == 1 ? "variance" : "ring"));
+  c.cat(std::string("long_history_shape_") + std::to_string(shape));
+  Prec prec = cls == 2 ? Prec{1.0, 1} : pick_prec(r);
+  ValueGen g = make_gen(r, prec.m);
+  if (cls == 2) {g.mode = 1;}
+  std::vector<Op> ops;
+  ops.reserve((size_t)reps + 2 * (size_t)W + 8);
+  auto upd = [&]() {Op o; o.reset = false; o.x = sample(r, g, o.v); ops.push_back(o);};
+  if (shape == 0) {
+    for (long long i = 0; i < reps; ++i) {upd();}
+  } else if (shape == 1) {
+    long long pre = r.range(0, W + 1);
+    for (long long i = 0; i < pre; ++i) {upd();}
+    for (long long i = 0; i < reps; ++i) {ops.push_back({true, 0.0, 0});}
+  } else {
+    for (long long i = 0; i < reps; ++i) {if (i & 1) {ops.push_back({true, 0.0, 0});} else {upd();}}
+  }
+  const size_t observe_from = ops.size() - 1;
+  for (int i = 0; i < W + 3; ++i) {if (r.coin(0.08)) {ops.push_back({true, 0.0, 0});} else {upd();}}
+  c.sample(cat, [&]() {
+      return vh::J().s("cat", cat).f("class", cls).f("W", W).f("precision", prec.p).f("repetitions", (int64_t)reps)
+             .f("shape", shape).f("history_length", (uint64_t)ops.size()).str();
+    });
+  c.distinct(vh::hash_doubles({-2.0, (double)cls, (double)W, (double)reps, (double)shape, prec.p, ops[0].x}), true);
+  HistoryFacts hf;
+  if (cls == 2) {
+    vh::Rng ra(c.seed, idx, 1);
+    run_ring_typed(c, ra, (int)r.range(0, N_RING_TYPES - 1), W, ops, cat, hf, observe_from);
+    note_facts(c, hf, "long_ring");
+  } else {
+    StatCfg s{cls == 1, W, prec, r.coin(0.2), cat};
+    s.observe_from = observe_from;
+    vh::Rng rs(c.seed, idx, 2);
+    run_stats(c, rs, s, ops, hf);
+    note_facts(c, hf, cls == 1 ? "long_variance" : "long_average");
+  }
+  c.count("long_history_operations", (uint64_t)ops.size());
+}
+
+// ---------------------------------------------------------------------------------------------
 static void one_case(vh::Ctx & c, uint64_t idx)
 {
   vh::Rng r(c.seed, idx);
   if (idx < EXH_CASES) {exhaustive_case(c, r, idx); return;}
+  {
+    vh::Rng rl(c.seed, idx, 3);
+    if (rl.coin(0.006)) {long_history_case(c, rl, idx); return;}
+  }
 
   int cls = (int)r.range(0, 9);       // 0-3 average, 4-7 variance, 8-9 ring
   if (cls <= 7) {
@@ -628,7 +1043,8 @@ static void one_case(vh::Ctx & c, uint64_t idx)
       });
     HistoryFacts hf;
     StatCfg s{variance, W, prec, via_set, cat};
-    run_stats(c, s, ops, hf);
+    vh::Rng rs(c.seed, idx, 2);       // separate stream: call styles, copies, siblings, self-aliasing
+    run_stats(c, rs, s, ops, hf);
     note_facts(c, hf, cat);
     c.distinct(h, hf.wrapped || hf.reset_then_update);
     return;
@@ -644,7 +1060,7 @@ static void one_case(vh::Ctx & c, uint64_t idx)
   }
   bool pow2 = (cap & (cap - 1)) == 0;
   c.cat(pow2 ? "ring_capacity_pow2" : "ring_capacity_non_pow2");
-  int type = (int)r.range(0, 5);
+  int type = (int)r.range(0, N_RING_TYPES - 1);
   c.cat(std::string("ring_element_type_") + std::to_string(type));
   ValueGen g = make_gen(r, 1);
   g.mode = 1;
